@@ -97,6 +97,14 @@ func dtypeOfSlice(e reflect.Value) tensor.Dtype {
 // genBits draws n elements of dt as arbitrary bit patterns (extremes, negatives, NaN payloads, -0).
 func genBits(dt tensor.Dtype, n int) *rapid.Generator[any] {
 	return rapid.Custom(func(t *rapid.T) any {
+		if n > 2048 {
+			base := reflect.ValueOf(genBits(dt, 257).Draw(t, "base"))
+			s := reflect.MakeSlice(reflect.SliceOf(dt.Type), n, n)
+			for i := 0; i < n; i++ {
+				s.Index(i).Set(base.Index((i*7919 + i/257) % 257))
+			}
+			return s.Interface()
+		}
 		s := reflect.MakeSlice(reflect.SliceOf(dt.Type), n, n)
 		for i := 0; i < n; i++ {
 			var u uint64
